@@ -86,6 +86,10 @@ func Main(o Options) int {
 		}
 	}
 	prog, err := load.Load(load.Options{Dir: o.Repo, Overlay: overlay})
+	if err != nil && mut != nil {
+		fmt.Printf("MUTATION %s: BROKEN (variant does not load: %v)\n", mut.ID, strings.Split(err.Error(), "\n")[0]+" ...")
+		return 4
+	}
 	if err != nil {
 		fmt.Printf("UNDECIDED property=%s: cannot load %s: %v\n", o.Property, o.Repo, err)
 		return 2
@@ -105,6 +109,9 @@ func Main(o Options) int {
 	if o.Dump != "" {
 		rules.Dump(ctx, o.Dump, os.Stdout)
 		return 0
+	}
+	if o.Property == "ALL" {
+		return runAll(ctx, o)
 	}
 	prop, ok := rules.Properties[o.Property]
 	if !ok {
@@ -354,6 +361,12 @@ type Mutation struct {
 	KeyPart  string `json:"key"`    // substring expected in the reported obligation key
 	Why      string `json:"why"`
 	Benign   bool   `json:"benign"` // behaviour-preserving: no rule may report
+	Expect   string `json:"expect"` // "undecided": the designed answer is UNDECIDED (shape outside a recognised fragment)
+	Edits    []struct {
+		File string `json:"file"`
+		Old  string `json:"old"`
+		New  string `json:"new"`
+	} `json:"edits"` // further edits needed to keep the variant compiling (imports, declarations)
 }
 
 func loadMutation(o Options, id string) (*Mutation, map[string][]byte, error) {
@@ -374,7 +387,27 @@ func loadMutation(o Options, id string) (*Mutation, map[string][]byte, error) {
 		if strings.Count(string(src), m.Old) != 1 {
 			return nil, nil, fmt.Errorf("old snippet occurs %d times in %s", strings.Count(string(src), m.Old), m.File)
 		}
-		return m, map[string][]byte{abs: []byte(strings.Replace(string(src), m.Old, m.New, 1))}, nil
+		ov := map[string][]byte{abs: []byte(strings.Replace(string(src), m.Old, m.New, 1))}
+		for _, e := range m.Edits {
+			f := e.File
+			if f == "" {
+				f = m.File
+			}
+			a := filepath.Join(o.Repo, f)
+			cur, ok := ov[a]
+			if !ok {
+				b, err := os.ReadFile(a)
+				if err != nil {
+					return nil, nil, err
+				}
+				cur = b
+			}
+			if strings.Count(string(cur), e.Old) != 1 {
+				return nil, nil, fmt.Errorf("extra edit: old snippet occurs %d times in %s", strings.Count(string(cur), e.Old), f)
+			}
+			ov[a] = []byte(strings.Replace(string(cur), e.Old, e.New, 1))
+		}
+		return m, ov, nil
 	}
 	return nil, nil, fmt.Errorf("no mutation %q", id)
 }
@@ -400,6 +433,76 @@ func reportMutation(m *Mutation, all []rules.Obligation) int {
 			return 0
 		}
 	}
+	if m.Expect == "undecided" {
+		for _, ob := range all {
+			if ob.Verdict == rules.Undecided && strings.Contains(ob.Key, m.KeyPart) {
+				fmt.Printf("MUTATION %s: UNDECIDED-AS-DESIGNED by %s\n", m.ID, ob.Key)
+				return 0
+			}
+		}
+	}
 	fmt.Printf("MUTATION %s: MISSED (expected %s %s; got %s)\n", m.ID, m.Rule, m.KeyPart, strings.Join(hits, "; "))
 	return 1
+}
+
+// runAll evaluates every claimed property in one process (one load) and prints,
+// per property, the violated/undecided obligations that are not known findings.
+// Used to try seeded changes quickly; writes no evidence.
+func runAll(ctx *rules.Ctx, o Options) int {
+	var known KnownFile
+	_ = readJSON(filepath.Join(o.VerifDir, "known_findings.json"), &known)
+	ids := []string{}
+	for id := range rules.Properties {
+		if !strings.HasPrefix(id, "X-") {
+			ids = append(ids, id)
+		}
+	}
+	sort.Strings(ids)
+	rc := 0
+	for _, id := range ids {
+		results, panicked := runProperty(ctx, rules.Properties[id], "quick")
+		if panicked != "" {
+			fmt.Printf("PROP %s PANIC %s\n", id, panicked)
+			rc = 2
+			continue
+		}
+		knownMap := map[string]bool{}
+		for _, k := range known.Findings {
+			if k.Property == id {
+				knownMap[k.Key] = true
+			}
+		}
+		var hits []string
+		for _, r := range results {
+			r.Dedup()
+			if r.Instances < r.MinInst {
+				hits = append(hits, fmt.Sprintf("[floor] %s %d<%d", r.Rule, r.Instances, r.MinInst))
+			}
+			for _, ob := range r.Obls {
+				if ob.Verdict != rules.Violated && ob.Verdict != rules.Undecided {
+					continue
+				}
+				if _, ex := ctx.Exemptions[ob.Key]; ex {
+					continue
+				}
+				if knownMap[ob.Key] {
+					continue
+				}
+				hits = append(hits, fmt.Sprintf("[%s] %s :: %s", ob.Verdict, ob.Key, ob.Detail))
+			}
+		}
+		if len(hits) == 0 {
+			fmt.Printf("PROP %s ok\n", id)
+			continue
+		}
+		rc = 1
+		fmt.Printf("PROP %s REPORTS %d\n", id, len(hits))
+		for _, h := range hits {
+			if len(h) > 420 {
+				h = h[:420] + "..."
+			}
+			fmt.Printf("    %s\n", h)
+		}
+	}
+	return rc
 }
